@@ -159,7 +159,12 @@ def gen(ctx):
         cases.append(("i.toepoch %s" % hex16(*a), ("toepoch", a)))
         t = (absms(a) - EPOCH_ORD * MSD) // 1000
         cases.append(("i.frepoch %d" % t, ("frepoch", t)))
-        b = rand_inst(rng, None, 2001, HI)
+        # the daemon's wake-up time: any DTSTART there is, of long ago (1902..2000) as well as beyond 2099
+        b = rand_inst(rng, None, *rng.choice([(1902, 2000), (1902, HI), (2001, HI), (2090, 2400)]))
+        try:
+            datetime.date(*b[:3])
+        except ValueError:
+            b = b[:2] + (28,) + b[3:]       # (2100, 2200, 2300 have no leap day)
         cases.append(("i.tstamp %s" % hex16(*b), ("tstamp", b)))
     if thorough:
         for o in range(EPOCH_ORD, datetime.date(HI, 12, 31).toordinal() + 1):
@@ -167,8 +172,13 @@ def gen(ctx):
             a = (dt.year, dt.month, dt.day, 23, 59, 59, 1023)
             cases.append(("i.toepoch %s" % hex16(*a), ("toepoch", a)))
             cases.append(("i.frepoch %d" % ((o - EPOCH_ORD) * 86400 + 86399), ("frepoch", (o - EPOCH_ORD) * 86400 + 86399)))
-            if dt.year >= 2001:
-                cases.append(("i.tstamp %s" % hex16(*a), ("tstamp", a)))
+            cases.append(("i.tstamp %s" % hex16(*a), ("tstamp", a)))
+        for o in range(datetime.date(1902, 1, 1).toordinal(), EPOCH_ORD, 3):
+            dt = datetime.date.fromordinal(o)
+            cases.append(("i.tstamp %s" % hex16(dt.year, dt.month, dt.day, 12, 0, 0, 1023), ("tstamp", (dt.year, dt.month, dt.day, 12, 0, 0, 1023))))
+        for o in range(datetime.date(2100, 1, 1).toordinal(), datetime.date(2400, 12, 31).toordinal(), 5):
+            dt = datetime.date.fromordinal(o)
+            cases.append(("i.tstamp %s" % hex16(dt.year, dt.month, dt.day, 255, 0, 0, 0), ("tstamp", (dt.year, dt.month, dt.day, 255, 0, 0, 0))))
     return cases
 
 
